@@ -365,13 +365,30 @@ func init() {
 		},
 	}
 
+	// formatted strings are opaque, but their length is bounded below by the format text plus the
+	// strings their operands render to; that much is charged to the allocation model and carried
+	// by the result (an error that wraps an error wraps its text too)
 	opaqueErr := func(e *Exec, fn *ssa.Function, a []Value) (Value, *GoPanic) {
+		saved := e.fmtLen
+		e.fmtLen = 0
 		e.fmtOperands(a)
-		return e.newError(fn.String()), nil
+		n := e.fmtLen
+		e.fmtLen = saved
+		e.alloc += int64(n)
+		er := e.newError(fn.String())
+		(*er.(*IfaceV).V.(*Ptr).Obj).V.(*StructV).F[0].(*StrV).Cost = n
+		return er, nil
 	}
 	opaqueString := func(e *Exec, fn *ssa.Function, a []Value) (Value, *GoPanic) {
+		saved := e.fmtLen
+		e.fmtLen = 0
 		e.fmtOperands(a)
-		return e.opaqueStr(), nil
+		n := e.fmtLen
+		e.fmtLen = saved
+		e.alloc += int64(n)
+		r := e.opaqueStr()
+		r.Cost = n
+		return r, nil
 	}
 	_ = 0
 	stubs = map[string]handler{
@@ -416,6 +433,7 @@ func init() {
 		"sort.Ints":          sortInts,
 		"sort.Strings":       sortStrings,
 		"sort.Slice":         sortSlice,
+		"sort.SliceStable":   sortSlice, // the insertion sort below is stable
 		"strings.Index":      stringsIndex,
 		"strings.IndexByte":  stringsIndexByte,
 		"bytes.IndexByte":    bytesIndexByte,
@@ -672,6 +690,7 @@ func (e *Exec) fmtOperands(args []Value) {
 		if st, ok := a.(*StrV); ok && !haveFormat {
 			if f, conc := strConcrete(st); conc {
 				haveFormat = true
+				e.fmtLen += len(f)
 				for i := 0; i < len(f); i++ {
 					if f[i] != '%' {
 						continue
@@ -690,7 +709,7 @@ func (e *Exec) fmtOperands(args []Value) {
 		if s, ok := a.(*SliceV); ok {
 			// the variadic ...interface{} slice
 			for i, v := range e.sliceVals(s) {
-				if haveFormat && i < len(verbs) && strings.IndexByte("vsxXq", verbs[i]) < 0 {
+				if haveFormat && i < len(verbs) && strings.IndexByte("vsxXqw", verbs[i]) < 0 {
 					continue
 				}
 				e.fmtValue(v, 0)
@@ -708,13 +727,21 @@ func (e *Exec) fmtValue(v Value, depth int) {
 		if x.T == nil {
 			return
 		}
+		if rs, ok := x.V.(*StrV); ok {
+			e.fmtLen += len(rs.B) + rs.Cost
+			return
+		}
 		for _, name := range []string{"Error", "String"} {
 			if fn := e.w.methodByName(x.T, name); fn != nil && fn.Signature.Params().Len() == 0 && fn.Signature.Results().Len() == 1 && isString(fn.Signature.Results().At(0).Type()) {
 				if p, ok := x.V.(*Ptr); ok && p.IsNil() {
 					return // fmt prints <nil> for nil receivers
 				}
 				// fmt recovers panics from String/Error methods
-				e.callFn(fn, []Value{x.V}, nil)
+				if r, gp := e.callFn(fn, []Value{x.V}, nil); gp == nil {
+					if rs, ok := r.(*StrV); ok {
+						e.fmtLen += len(rs.B) + rs.Cost
+					}
+				}
 				return
 			}
 		}
@@ -1128,7 +1155,7 @@ func (e *Exec) retained(v Value, seen map[interface{}]bool) int64 {
 	case *FloatV:
 		return 8
 	case *StrV:
-		return 16 + int64(len(x.B))
+		return 16 + int64(len(x.B)) + int64(x.Cost)
 	case *SliceV:
 		n := int64(24)
 		if x.Base != nil && !seen[x.Base.Obj] {
